@@ -148,7 +148,7 @@ class PackFile:
 def unify_path(path: str) -> str:
     """Convert paths to a unique form."""
     path = os.path.normpath(path).casefold().replace('\\', '/')
-    if '../' in path:
+    if '..' in path.split('/'):
         raise ValueError('Path tried to escape root!')
     return path.lstrip('/')
 
